@@ -31,10 +31,12 @@ func processTableDepth(
 	incompleteTableDepthMap map[string]int,
 	visitedTableAttrs map[string]string,
 ) {
+	progressed := false
 	for tableName := range incompleteTableDepthMap {
 		processComplete, size, tempVisitedAttrs := findTableDepth(tableName, tableMap[tableName],
 			visitedTableAttrs, completeTableDepthMap)
 		if processComplete {
+			progressed = true
 			processedTablesSlice := completedTableDepthMap[size]
 			if processedTablesSlice == nil {
 				processedTablesSlice = nil
@@ -47,6 +49,19 @@ func processTableDepth(
 				visitedTableAttrs[tempAttr] = tempVisitedAttrs[tempAttr]
 			}
 		}
+	}
+	if !progressed {
+		// No table could be completed in this pass: the remaining ones reference each other in a cycle or reference
+		// a column that does not exist, and another pass would change nothing. Place them after all other tables
+		// instead of recursing until the stack overflows.
+		depth := len(completedTableDepthMap)
+		for tableName := range incompleteTableDepthMap {
+			logrus.Warnf("table %s has cyclic or unresolved references; it is placed last in the script", tableName)
+			completedTableDepthMap[depth] = append(completedTableDepthMap[depth], tableName)
+			completeTableDepthMap[tableName] = depth
+			delete(incompleteTableDepthMap, tableName)
+		}
+		return
 	}
 	if len(incompleteTableDepthMap) != 0 {
 		processTableDepth(tableMap, completedTableDepthMap, completeTableDepthMap, incompleteTableDepthMap,
